@@ -301,6 +301,14 @@ func runC18Stack(c C18Case) (st Stats, err error) {
 				if _, pp := callMethod(s, methodRef{Name: step.Name}, args); pp != "" {
 					panic(pp)
 				}
+			case "seterr":
+				// an error recorded on the instance (or cleared) has no say in any option or setting
+				if step.Mode%2 == 0 {
+					s.SetErr(errAmbient)
+				} else {
+					s.SetErr(nil)
+				}
+				st.Class("set-err")
 			case "logger":
 				// choosing where log lines go has no say in anything else (the log levels least of all)
 				s.SetLogger(c18Logger(step.Mode))
@@ -629,6 +637,13 @@ func runC18Cond(c C18Case) (st Stats, err error) {
 				if _, pp := callMethod(cd, methodRef{Name: step.Name}, args); pp != "" {
 					panic(pp)
 				}
+			case "seterr":
+				if step.Mode%2 == 0 {
+					cd.SetErr(errAmbient)
+				} else {
+					cd.SetErr(nil)
+				}
+				st.Class("set-err")
 			case "logger":
 				cd.SetLogger(c18Logger(step.Mode))
 				st.Class("set-logger")
@@ -876,11 +891,11 @@ func genLogArgs(t *rapid.T) []string {
 func genC18(t *rapid.T, tier Tier) C18Case {
 	c := C18Case{Target: "stack", Kind: rapid.SampledFrom(stackKinds).Draw(t, "kind"), Init: rapid.SampledFrom(initStates()).Draw(t, "init")}
 	setters := triStateSetters(stackMethods)
-	ops := []string{"tri", "tri", "tri", "tri", "id", "cat", "delim", "symbol", "encap", "encap", "aux", "loglevel", "loglevel", "unloglevel", "logger", "fifo", "push", "pop"}
+	ops := []string{"tri", "tri", "tri", "tri", "id", "cat", "delim", "symbol", "encap", "encap", "aux", "loglevel", "loglevel", "unloglevel", "logger", "seterr", "fifo", "push", "pop"}
 	if rapid.IntRange(0, 4).Draw(t, "cond") == 0 {
 		c.Target = "cond"
 		setters = triStateSetters(condMethods)
-		ops = []string{"tri", "tri", "tri", "id", "cat", "encap", "aux", "loglevel", "unloglevel", "logger"}
+		ops = []string{"tri", "tri", "tri", "id", "cat", "encap", "aux", "loglevel", "unloglevel", "logger", "seterr"}
 	}
 	if rapid.IntRange(0, 2).Draw(t, "clearro") > 0 {
 		c.Init &^= bRO
@@ -925,6 +940,8 @@ func genC18(t *rapid.T, tier Tier) C18Case {
 			}
 		case "logger":
 			s.Mode = rapid.IntRange(0, 4).Draw(t, "loggerform")
+		case "seterr":
+			s.Mode = rapid.IntRange(0, 2).Draw(t, "seterr")
 		case "aux":
 			s.Mode = rapid.IntRange(0, 3).Draw(t, "auxform")
 		case "loglevel", "unloglevel":
